@@ -1,16 +1,34 @@
 (** Conv/Targets.v — the universe of library target types and their [FromMeta] implementers. *)
-From DarlingModel Require Export Conv.Scalars.
+From DarlingModel Require Export Conv.Scalars Conv.SynValues Conv.Wrappers Conv.Maps Conv.Probe.
 Local Open Scope string_scope.
 
 Inductive target : Type :=
 | TUnit | TBool | TAtomicBool | TChar | TString | TPathBuf
 | TInt (t : ity)
-| TFloat (is64 : bool).
+| TFloat (is64 : bool)
+(* syntax-typed *)
+| TExpr | TPath | TIdent | TIdentString | TCallable | TMeta | TPathList | TWherePreds
+| TExprType (g : grammar) (kind : string)      (* ExprArray / ExprPath / ExprRange *)
+| TSynParse (g : grammar)                      (* from_syn_parse! family, Punctuated *)
+| TPunct (name : string)
+| TLit (want : string)                         (* Lit ("" = any), LitInt "int", ... *)
+| TVecLit (want : string)
+| TNumArr (t : ity)
+(* wrappers *)
+| TOption (t : target) | TPtr (t : target) | TResult (t : target) | TResultMeta (t : target)
+| TOverride (t : target) | TSpanned (t : target) | TWithOriginal (t : target) | TFlag
+(* maps *)
+| TMap (k : keykind) (v : target)
+(* an arbitrary implementer given by the case itself (probe types) *)
+| TProbe (F : fm).
 
 Section FmOf.
   Variable pf : bool -> string -> option N.
+  Variable reparse : grammar -> string -> option string.
+  Variable reparse_arr : string -> option expr.
+  Variable reparse_preds : string -> option (list string).
 
-  Definition fm_of (t : target) : fm :=
+  Fixpoint fm_of (t : target) : fm :=
     match t with
     | TUnit => unit_fm
     | TBool => bool_fm
@@ -20,5 +38,29 @@ Section FmOf.
     | TPathBuf => pathbuf_fm
     | TInt t => int_fm t
     | TFloat b => float_fm pf b
+    | TExpr => expr_fm reparse
+    | TPath => path_fm reparse
+    | TIdent => ident_fm reparse
+    | TIdentString => ident_string_fm reparse
+    | TCallable => callable_fm
+    | TMeta => meta_fm
+    | TPathList => pathlist_fm
+    | TWherePreds => where_preds_fm reparse_preds
+    | TExprType g k => expr_type_fm reparse g k
+    | TSynParse g => syn_parse_fm reparse g
+    | TPunct n => punctuated_fm reparse n
+    | TLit w => lit_fm w
+    | TVecLit w => veclit_fm reparse_arr w
+    | TNumArr t => numarr_fm reparse_arr t
+    | TOption t => option_fm (fm_of t)
+    | TPtr t => ptr_fm (fm_of t)
+    | TResult t => result_fm (fm_of t)
+    | TResultMeta t => result_meta_fm (fm_of t)
+    | TOverride t => override_fm (fm_of t)
+    | TSpanned t => spanned_fm (fm_of t)
+    | TWithOriginal t => with_original_fm (fm_of t)
+    | TFlag => flag_fm
+    | TMap k v => map_fm k (fm_of v)
+    | TProbe F => F
     end.
 End FmOf.
